@@ -207,6 +207,29 @@ class Session:
         return out
 
 
+COMMAND_WORDS = {'filter': 'filter', 'break': 'breakpoint', 'list': 'list', 'conn': 'connection', 'resume': 'resume', 'quit': 'quit'}
+
+
+def spell_command(word, ev):
+    """Commands can be abbreviated down to their first letter and written GDB-style (`wl list`, `wllist`, `w l`):
+    every spelling is the same command (spec/CommandWords.tla); which one is typed is a deterministic function of the event."""
+    h = sum(ord(c) * (i + 7) for i, c in enumerate(repr(sorted(ev.items(), key=lambda kv: kv[0]))[:200]))
+    if ev.get('plain'):
+        return word
+    n = [len(word), 1, 3, len(word), 2, len(word) - 1][h % 6]
+    w = word[:max(1, n)]
+    style = (h // 6) % 7
+    if style == 1:
+        return 'wl ' + w
+    if style == 2:
+        return 'wl' + w
+    if style == 3:
+        return 'w ' + w
+    if style == 4:
+        return w.upper() if False else w      # command words are case-sensitive prefixes of lower-case names
+    return w
+
+
 def command_text(ev):
     """abstract command event -> what the user types"""
     if 'text' in ev:
@@ -214,12 +237,12 @@ def command_text(ev):
     c = ev['c']
     sp = mrender.Spelling(*ev.get('spell', ('', '', ())))
     if c in ('filter', 'break'):
-        word = {'filter': 'filter', 'break': 'breakpoint'}[c]
+        word = spell_command(COMMAND_WORDS[c], ev)
         if not ev['hasarg']:
             return word
         return word + ' ' + (ev['bad'] if not ev['ok'] else mrender.r_top(ev['ast'], sp))
     if c == 'list':
-        s = 'list'
+        s = spell_command('list', ev)
         if ev['hasm']:
             s += ' ' + (ev['bad'] if not ev['ok'] else mrender.r_top(ev['ast'], sp))
         if ev.get('captext') is not None:
@@ -228,9 +251,9 @@ def command_text(ev):
             s += ' ~ ' + str(ev['cap'])
         return s
     if c == 'conn':
-        return 'connection' + (' ' + ev['arg'] if ev['arg'] else '')
+        return spell_command('connection', ev) + (' ' + ev['arg'] if ev['arg'] else '')
     if c in ('resume', 'quit'):
-        return c
+        return spell_command(c, ev)
     raise ValueError(c)
 
 
